@@ -7,7 +7,7 @@
 From Coq Require Import ZArith QArith Qabs Qcanon List Lia Reals.
 From Coquelicot Require Import Coquelicot.
 From DV Require Import Base.Field Base.FieldFacts Base.LinAlg Base.QcInst Model.Sampler Model.SamplerQc Model.Flow Model.FlowHull Model.FlowQc
-  Gen.FlowAlg Proofs.C11Interp Proofs.C11Compose Proofs.C11Compose3 Proofs.C11Expv Proofs.C11Hull Proofs.C11Gen Base.RInst Proofs.C11Limit Proofs.C11LimitModel Proofs.C11LimitAffine Proofs.C11LimitDiagonalizable.
+  Gen.FlowAlg Proofs.C11Interp Proofs.C11Compose Proofs.C11Compose3 Proofs.C11Expv Proofs.C11Hull Proofs.C11Gen Base.RInst Proofs.C11Limit Proofs.C11LimitModel Proofs.C11LimitAffine Proofs.C11LimitDiagonalizable Proofs.C11LimitConj2 Proofs.C11LimitAnalysis Proofs.C11LimitForms2 Proofs.C11LimitClass2.
 Import ListNotations.
 
 Section Statements.
@@ -251,6 +251,56 @@ Example C11_conj_diag_covers_symmetric : conj_diag 1 1 1 (-1) 1 (-1) = H2 (K:=RF
 Proof. exact conj_diag_symmetric. Qed.
 Print Assumptions C11_convergence_diagonalisable_2d.
 Print Assumptions C11_conj_diag_is_conjugation.
+
+(* 7d. the three real canonical forms of a 2 x 2 matrix, and similarity invariance: for M diagonal, a Jordan block
+       [[a 1] [0 a]] or a rotation-scaling [[a -b] [b a]] (complex eigenvalues a +- i b) every entry of the closed form
+       (I + M/2^k)^(2^k) converges to the entry of exp M; and if the closed form for M converges entrywise to E then for every
+       invertible P the closed form for P M P^-1 converges entrywise to P E P^-1 (for every k the closed form of the conjugate
+       is the conjugate of the closed form).  conv2 A E := entrywise convergence of the linear 2 x 2 parts. *)
+Theorem C11_convergence_canonical_forms_2d :
+  forall a b d : R,
+  conv2 (fun k : nat => hpow (K:=RF) 2 (hone_plus (K:=RF) 2 (/ 2 ^ k) (L2 a 0 0 d)) (2 ^ k)) (L2 (exp a) 0 0 (exp d)) /\
+  conv2 (fun k : nat => hpow (K:=RF) 2 (hone_plus (K:=RF) 2 (/ 2 ^ k) (L2 a 1 0 a)) (2 ^ k)) (L2 (exp a) (exp a) 0 (exp a)) /\
+  conv2 (fun k : nat => hpow (K:=RF) 2 (hone_plus (K:=RF) 2 (/ 2 ^ k) (L2 a (- b) b a)) (2 ^ k))
+        (L2 (exp a * cos b) (- (exp a * sin b)) (exp a * sin b) (exp a * cos b)).
+Proof. intros a b d. split; [apply conv2_diagonal | split; [apply conv2_jordan | apply conv2_rotation_scaling]]. Qed.
+Theorem C11_convergence_similarity_invariant_2d :
+  forall (p q r s a b c d : R) (E : list (list R)), p * s - q * r <> 0 ->
+  (forall k : nat, hpow (K:=RF) 2 (hone_plus (K:=RF) 2 (/ 2 ^ k) (conj2 p q r s a b c d)) (2 ^ k)
+                   = conj2m p q r s (hpow (K:=RF) 2 (hone_plus (K:=RF) 2 (/ 2 ^ k) (L2 a b c d)) (2 ^ k))) /\
+  (conv2 (fun k : nat => hpow (K:=RF) 2 (hone_plus (K:=RF) 2 (/ 2 ^ k) (L2 a b c d)) (2 ^ k)) E ->
+   conv2 (fun k : nat => hpow (K:=RF) 2 (hone_plus (K:=RF) 2 (/ 2 ^ k) (conj2 p q r s a b c d)) (2 ^ k)) (conj2m p q r s E)) /\
+  hcomp (K:=RF) 2 (conj2 p q r s a b c d) (L2 p q r s) = hcomp (K:=RF) 2 (L2 p q r s) (L2 a b c d).
+Proof.
+  intros p q r s a b c d E Hd. split; [intro k; apply closed_form_conj2; exact Hd|].
+  split; [apply convergence_similarity_invariant2; exact Hd | apply conj2_is_conjugation; exact Hd].
+Qed.
+Print Assumptions C11_convergence_canonical_forms_2d.
+Print Assumptions C11_convergence_similarity_invariant_2d.
+
+(* 7e. EVERY linear 2-D generator: every real 2 x 2 matrix is P J P^-1 with J diagonal, a Jordan block or a rotation-scaling
+       (real canonical form, proved by cases on the discriminant), hence for every a b c d the closed form
+       (I + G/2^k)^(2^k), G = [[a b] [c d]], converges entrywise to P exp(J) P^-1 = exp G.  `canonical J EJ` pairs each form with
+       its exponential; those are characterised intrinsically: X(t) = exp(t J) has X(0) = I, X' = J X, X(1) = EJ.
+       Still PARTIAL: D = 3 with off-diagonal entries, and translation combined with a non-diagonal linear part. *)
+Theorem C11_convergence_every_linear_generator_2d :
+  forall a b c d : R,
+  exists p q r s J EJ, p * s - q * r <> 0 /\ canonical J EJ /\ L2 a b c d = conj2m p q r s J /\
+  conv2 (fun k : nat => hpow (K:=RF) 2 (hone_plus (K:=RF) 2 (/ 2 ^ k) (L2 a b c d)) (2 ^ k)) (conj2m p q r s EJ).
+Proof. exact every_linear_generator_converges2. Qed.
+Theorem C11_canonical_exponentials_solve_ode :
+  forall l1 l2 u v : R,
+  (solves_ode (L2 l1 0 0 l2) (expt_diag l1 l2) /\ expt_diag l1 l2 1 = L2 (exp l1) 0 0 (exp l2)) /\
+  (solves_ode (L2 l1 1 0 l1) (expt_jordan l1) /\ expt_jordan l1 1 = L2 (exp l1) (exp l1) 0 (exp l1)) /\
+  (solves_ode (L2 u (- v) v u) (expt_rot u v) /\
+   expt_rot u v 1 = L2 (exp u * cos v) (- (exp u * sin v)) (exp u * sin v) (exp u * cos v)).
+Proof. intros l1 l2 u v. split; [apply expt_diag_ode | split; [apply expt_jordan_ode | apply expt_rot_ode]]. Qed.
+(* non-vacuity: the infinitesimal rotation [[0 -1] [1 0]] is canonical with exponential the rotation by 1 rad *)
+Example C11_canonical_rotation_example :
+  canonical (L2 0 (- 1) 1 0) (L2 (exp 0 * cos 1) (- (exp 0 * sin 1)) (exp 0 * sin 1) (exp 0 * cos 1)).
+Proof. constructor. Qed.
+Print Assumptions C11_convergence_every_linear_generator_2d.
+Print Assumptions C11_canonical_exponentials_solve_ode.
 Local Open Scope Q_scope.
 
 (* non-vacuity: a concrete generator on a 3 x 2 lattice (align_corners = false) that satisfies the hull predicate, is
